@@ -274,6 +274,29 @@ def part_copy(ctx, case, m, rng):
             after = observe(obs)
             ctx.check("copy_independent", after == before, {"mutator": nm, "direction": direction}, {"changed_reports": diff_keys(before, after), "mesh": case["mesh"]})
             ctx.observe("mutator_" + nm)
+    # geometry caches: modify one side, export it, then export the other side - it must still give its own geometry
+    import xarray as xr
+
+    for direction in ("modify_copy", "modify_original"):
+        for ename in ("to_linecollection", "to_polycollection", "to_geodataframe_spatialpandas"):
+            try:
+                g = build_for_copy(m, rng)
+                ref_digest = export_digest(exports(build_for_copy(m, np.random.default_rng(0)) if False else g.copy())[ename]())
+                g = build_for_copy(m, np.random.default_rng(case["seed"]))
+                twin = build_for_copy(m, np.random.default_rng(case["seed"]))
+                ref_digest = export_digest(exports(twin)[ename]())
+                c = g.copy()
+                mut, other = (c, g) if direction == "modify_copy" else (g, c)
+                mut.node_lon = xr.DataArray(np.asarray(mut.node_lon.values) * 0.5 + 3.0, dims=mut.node_lon.dims, attrs=mut.node_lon.attrs)
+                with warnings.catch_warnings():
+                    warnings.simplefilter("ignore")
+                    exports(mut)[ename]()
+                    got = export_digest(exports(other)[ename]())
+            except Exception as e:
+                ctx.observe("copy_export_raised:%s:%s" % (ename, core.exc_sig(e)))
+                continue
+            ctx.check("copy_independent", got == ref_digest, {"mutator": "setter_node_lon+export", "direction": direction, "export": ename},
+                      {"mesh": case["mesh"], "changed": _changed(ref_digest, got) if isinstance(got, (dict, list)) else None})
     ctx.mark_nontrivial()
 
 
@@ -328,8 +351,8 @@ def edit_export(name, obj, rng):
             arr = obj[v].values
             if arr.dtype.kind in "fi" and arr.size and arr.flags.writeable:
                 arr[...] = arr + 1 if arr.dtype.kind == "i" else arr * 0.5 + 1.0
-                done.append("values_in_place")
-                break
+                if "values_in_place" not in done:
+                    done.append("values_in_place")
         for v in list(obj.data_vars)[:2]:
             obj[v].attrs["edited_by_caller"] = 1
             obj[v].attrs.pop("cf_role", None)
